@@ -279,7 +279,11 @@ PROPS['C12'] = dict(
   outside=['graphs with more than 5 vertices', 'TBB parallel sort (sequential build only)'],
   units=[U('collapse_n4_w3', 'C12_collapse.cpp', ['VP_N=4', 'VP_WMAX=3', 'VP_WT=double', 'VP_GRIDW'], cflags=['-U__SSE2__'], weight=10), U('collapse_n4_w2_dense_labels', 'C12_collapse.cpp', ['VP_N=4', 'VP_WMAX=2', 'VP_LABELS=1', 'VP_WT=double', 'VP_GRIDW', 'GUDHI_COLLAPSE_USE_DENSE_ARRAY'], cflags=['-U__SSE2__'], weight=8),
          U('collapse_n5_w1', 'C12_collapse.cpp', ['VP_N=5', 'VP_WMAX=1', 'VP_WT=double', 'VP_GRIDW'], cflags=['-U__SSE2__'], weight=10), U('collapse_n5_w2', 'C12_collapse.cpp', ['VP_N=5', 'VP_WMAX=2', 'VP_WT=double', 'VP_GRIDW'], cflags=['-U__SSE2__'], tiers=['thorough'], weight=60),
-         U('collapse_octahedron_w3_dense', 'C12_collapse.cpp', ['VP_N=6', 'VP_WMAX=3', 'VP_WT=double', 'VP_GRIDW', 'VP_GRAPH=1', 'GUDHI_COLLAPSE_USE_DENSE_ARRAY'], cflags=['-U__SSE2__'], tiers=['thorough'], weight=60, budget=3300), U('collapse_octahedron_w3', 'C12_collapse.cpp', ['VP_N=6', 'VP_WMAX=3', 'VP_WT=double', 'VP_GRIDW', 'VP_GRAPH=1'], cflags=['-U__SSE2__'], tiers=['thorough'], weight=60, budget=3300), U('collapse_k6_w2_dense', 'C12_collapse.cpp', ['VP_N=6', 'VP_WMAX=2', 'VP_WT=double', 'VP_GRIDW', 'VP_FORKW', 'VP_GRAPH=2', 'GUDHI_COLLAPSE_USE_DENSE_ARRAY'], cflags=['-U__SSE2__'], tiers=['thorough'], weight=60, budget=3300), U('collapse_n5_w3_dense', 'C12_collapse.cpp', ['VP_N=5', 'VP_WMAX=3', 'VP_WT=double', 'VP_GRIDW', 'GUDHI_COLLAPSE_USE_DENSE_ARRAY'], cflags=['-U__SSE2__'], tiers=['thorough'], weight=60), U('collapse_n4_float_w4', 'C12_collapse.cpp', ['VP_N=4', 'VP_WMAX=4', 'VP_WT=float', 'VP_GRIDW'], cflags=['-U__SSE2__'], tiers=['thorough'], weight=40)])
+         U('collapse_octahedron_w3_dense', 'C12_collapse.cpp', ['VP_N=6', 'VP_WMAX=3', 'VP_WT=double', 'VP_GRIDW', 'VP_FORKW', 'VP_GRAPH=1', 'GUDHI_COLLAPSE_USE_DENSE_ARRAY'], cflags=['-U__SSE2__'], tiers=['thorough'], weight=60, budget=3300),
+         U('collapse_k6_w2_dense', 'C12_collapse.cpp', ['VP_N=6', 'VP_WMAX=2', 'VP_WT=double', 'VP_GRIDW', 'VP_FORKW', 'VP_GRAPH=2', 'GUDHI_COLLAPSE_USE_DENSE_ARRAY'], cflags=['-U__SSE2__'], tiers=['thorough'], weight=20, budget=3300),
+         U('collapse_k6_w3_tri1_dense', 'C12_collapse.cpp', ['VP_N=6', 'VP_WMAX=3', 'VP_WT=double', 'VP_GRIDW', 'VP_FORKW', 'VP_GRAPH=2', 'VP_FIXTRI=1', 'GUDHI_COLLAPSE_USE_DENSE_ARRAY'], cflags=['-U__SSE2__'], tiers=['thorough'], weight=60, budget=3300),
+         U('collapse_k6_w3_tri1', 'C12_collapse.cpp', ['VP_N=6', 'VP_WMAX=3', 'VP_WT=double', 'VP_GRIDW', 'VP_FORKW', 'VP_GRAPH=2', 'VP_FIXTRI=1'], cflags=['-U__SSE2__'], tiers=['thorough'], weight=60, budget=3300),
+         U('collapse_n5_w3_dense', 'C12_collapse.cpp', ['VP_N=5', 'VP_WMAX=3', 'VP_WT=double', 'VP_GRIDW', 'GUDHI_COLLAPSE_USE_DENSE_ARRAY'], cflags=['-U__SSE2__'], tiers=['thorough'], weight=60), U('collapse_n4_float_w4', 'C12_collapse.cpp', ['VP_N=4', 'VP_WMAX=4', 'VP_WT=float', 'VP_GRIDW'], cflags=['-U__SSE2__'], tiers=['thorough'], weight=40)])
 
 # ------------------------------------------------------------------------------------------------ C11
 _t11 = ['end', 'full', 'lower', 'upper', 'sparse']
